@@ -14,8 +14,8 @@ pub static DEF: PropDef = PropDef {
     level: "exploration",
     rule: "each case: a random conformant tree with per-element options (default / width 1-8 / unknown) is written by the real writer in several presentations and the destination byte streams are compared: (a) no Full items vs every collapsible master as Full vs a random collapse set; (b) deprecated write_unknown_size vs the option form (bytes and per-call destination lengths); (c) the output is decoded with the reference header decoder guided by the tree: every explicit width must be used exactly, unknown-size masters must carry an all-ones size, and the (id bytes, payload bytes) sequence must equal that of the all-default encoding; (d) four short-write schedules of the destination (1 byte per call, random limits, Interrupted injections) must deliver identical bytes. distinct = (tree fingerprint, collapse-set hash); non-trivial iff >=2 masters and at least one collapse or non-default option.",
     assumptions: &["cases in which the writer rejects the tree are vacuous (counted)", "Full items are only used for masters whose descendants all use default options (Full children cannot carry options) and never together with unknown size"],
-    cases_quick: 4000,
-    cases_thorough: 200_000,
+    cases_quick: 120_000,
+    cases_thorough: 1_500_000,
     floors: &[("presentations_compared", 6000), ("distinct_nontrivial", 300), ("explicit_width_fields_checked", 500)],
     exhaustive_note: None,
     run,
